@@ -1,7 +1,7 @@
 /-
-Helper lemmas for C19, part 7: `strconv.Unquote(strconv.Quote(v)) = v` for ASCII
-values (every byte < 0x80: printable characters, quotes, backslashes, control
-characters), and the structure of `Quote`'s output that the deptest parser relies on.
+Helper lemmas for C19, part 7: `strconv.Quote` / `UnquoteChar` on ASCII bytes (closed
+facts about the 128 ASCII escapes, locality of `UnquoteChar`), used for the ASCII chunks
+of `Quote`'s output (C19Chunks, C19QuoteAll).
 -/
 import DepsDev.Proofs.C19DepText
 
@@ -133,31 +133,6 @@ theorem unquoteGo_skip (pre rest buf : Bytes) :
   | nil => rfl
   | cons x p ih => simp only [List.cons_append, List.length_cons, unquoteGo]; exact ih
 
-theorem unquoteGo_escape (r : Nat) (hr : r < 128) (tail buf : Bytes) :
-    unquoteGo (escapeRune r ++ tail) 0 buf = unquoteGo tail 0 (buf ++ [r.toUInt8]) := by
-  obtain ⟨huc, hq, hnl, hne, _, _, hhead⟩ := ascii_escapes r hr
-  have happ := unquoteChar_append (escapeRune r) tail _ hhead huc
-  cases he : escapeRune r with
-  | nil => exact absurd he hne
-  | cons x xs =>
-    rw [he] at happ hq hnl
-    have hx1 : ¬ x = 0x22 := by simpa using hq
-    have hx2 : ¬ x = 0x0A := by simpa using hnl
-    simp only [List.cons_append] at happ ⊢
-    rw [unquoteGo]
-    simp only [beq_iff_eq, hx1, if_false, happ, hx2, List.length_cons, Nat.add_sub_cancel]
-    exact unquoteGo_skip xs tail _
-
-theorem unquoteGo_quoteGo (v : Bytes) (hv : isAscii v = true) (buf : Bytes) :
-    unquoteGo (quoteGo v 0 ++ [0x22]) 0 buf = some (buf ++ v) := by
-  induction v generalizing buf with
-  | nil => simp [quoteGo, unquoteGo]
-  | cons b v ih =>
-    simp only [isAscii, List.all_cons, Bool.and_eq_true, decide_eq_true_eq] at hv
-    rw [quoteGo_ascii_cons b v hv.1, List.append_assoc, unquoteGo_escape _ hv.1]
-    rw [ih (by simpa [isAscii] using hv.2), toUInt8_toNat]
-    simp
-
 /-! ### the fast path -/
 
 theorem splitAt1_some (q : UInt8) (x : Bytes) : ∃ p, splitAt1 q (x ++ [q]) = some p := by
@@ -170,66 +145,5 @@ theorem splitAt1_some (q : UInt8) (x : Bytes) : ∃ p, splitAt1 q (x ++ [q]) = s
     · exact ⟨([], x ++ [q]), by simp [hb]⟩
     · have : (b == q) = false := by simpa using hb
       exact ⟨(b :: p.1, p.2), by simp [this, hp]⟩
-
-theorem splitAt1_quoteGo (v : Bytes) (hv : isAscii v = true) :
-    ∃ pre rem, splitAt1 0x22 (quoteGo v 0 ++ [0x22]) = some (pre, rem) ∧
-      (pre.contains 0x5C = false → pre = v ∧ rem = [] ∧ v.contains 0x0A = false) := by
-  induction v with
-  | nil => exact ⟨[], [], by simp [quoteGo, splitAt1], fun _ => ⟨rfl, rfl, rfl⟩⟩
-  | cons b v ih =>
-    simp only [isAscii, List.all_cons, Bool.and_eq_true, decide_eq_true_eq] at hv
-    obtain ⟨pre', rem', hsp, himp⟩ := ih (by simpa [isAscii] using hv.2)
-    obtain ⟨_, _, _, hne, hnob, hbs, _⟩ := ascii_escapes b.toNat hv.1
-    rw [quoteGo_ascii_cons b v hv.1, List.append_assoc]
-    cases hc : (escapeRune b.toNat).contains 0x5C with
-    | true =>
-      have hh := hbs hc
-      cases he : escapeRune b.toNat with
-      | nil => exact absurd he hne
-      | cons x xs =>
-        rw [he] at hh
-        have hx : x = 0x5C := by simpa using hh
-        subst hx
-        obtain ⟨p, hp⟩ := splitAt1_some 0x22 (xs ++ quoteGo v 0)
-        rw [List.append_assoc] at hp
-        refine ⟨0x5C :: p.1, p.2, ?_, ?_⟩
-        · simp [splitAt1, hp]
-        · intro h; simp at h
-    | false =>
-      obtain ⟨he, hb1, hb2⟩ := hnob hc
-      rw [he, toUInt8_toNat]
-      have hbq : (b == 0x22) = false := by
-        have : b ≠ 0x22 := by
-          intro e; apply hb1; rw [e]; rfl
-        simpa using this
-      have hbn : b ≠ 0x0A := by
-        intro e; apply hb2; rw [e]; rfl
-      have hbb : b ≠ 0x5C := by
-        intro e
-        rw [he, toUInt8_toNat, e] at hc
-        simp at hc
-      refine ⟨b :: pre', rem', ?_, ?_⟩
-      · simp [splitAt1, hbq, hsp]
-      · intro h
-        have h' : pre'.contains 0x5C = false := by
-          simp only [List.contains_cons, Bool.or_eq_false_iff] at h
-          exact h.2
-        obtain ⟨e1, e2, e3⟩ := himp h'
-        refine ⟨by rw [e1], e2, ?_⟩
-        simp only [List.contains_cons, Bool.or_eq_false_iff, beq_eq_false_iff_ne, ne_eq]
-        exact ⟨fun e => hbn e.symm, e3⟩
-
-/-- `strconv.Unquote(strconv.Quote(v)) = v` for every ASCII string `v`. -/
-theorem unquote_quote (v : Bytes) (hv : isAscii v = true) : unquote (quote v) = some v := by
-  obtain ⟨pre, rem, hsp, himp⟩ := splitAt1_quoteGo v hv
-  simp only [unquote, quote, beq_self_eq_true, if_true, hsp]
-  by_cases hcond : (!pre.contains 0x5C && !pre.contains 0x0A && validString pre) = true
-  · simp only [hcond, if_true]
-    simp only [Bool.and_eq_true, Bool.not_eq_eq_eq_not, Bool.not_true] at hcond
-    obtain ⟨e1, e2, _⟩ := himp hcond.1.1
-    simp [e1, e2]
-  · simp only [hcond, Bool.false_eq_true, if_false]
-    have := unquoteGo_quoteGo v hv []
-    simpa using this
 
 end DepsDev.Proofs.C19
